@@ -105,8 +105,16 @@ def events(res, kind=None, name_re=None):
     return out
 
 
+DIFF_STATS = {'queries': 0, 'agree': 0, 'cvc5_unknown_or_error': 0}
+
+
+class SolverDisagreement(Exception):
+    pass
+
+
 def solve(constraints, timeout_ms=60000, want_model=True):
-    """-> ('unsat'|'sat'|'unknown', model, seconds)"""
+    """-> ('unsat'|'sat'|'unknown', model, seconds).  In the thorough tier every obligation-level query is
+    also sent to cvc5 through its SMT-LIB front end; a definite disagreement aborts the obligation (inconclusive)."""
     s = z3.Solver()
     s.set('timeout', timeout_ms)
     if seed():
@@ -115,6 +123,15 @@ def solve(constraints, timeout_ms=60000, want_model=True):
     t0 = time.time()
     r = s.check()
     dt = time.time() - t0
+    if os.environ.get('VERIF_TIER_EFFECTIVE') == 'thorough' and str(r) in ('sat', 'unsat') and DIFF_STATS['queries'] < 400:
+        DIFF_STATS['queries'] += 1
+        c = cvc5_check(constraints, 30)
+        if c in ('sat', 'unsat'):
+            if c != str(r):
+                raise SolverDisagreement(f'z3 says {r}, cvc5 says {c}')
+            DIFF_STATS['agree'] += 1
+        else:
+            DIFF_STATS['cvc5_unknown_or_error'] += 1
     return str(r), (s.model() if r == z3.sat and want_model else None), dt
 
 
@@ -175,7 +192,7 @@ def guarded(report, name, what, functions, bounds, body):
     ob = Obl(report, name, what, functions, bounds)
     try:
         body(ob)
-    except (Unmodelled, NotFound, M.Unparsed) as e:
+    except (Unmodelled, NotFound, M.Unparsed, SolverDisagreement) as e:
         ob.done([], 'inconclusive', f'{type(e).__name__}: {e}')
     except RecursionError as e:
         ob.done([], 'inconclusive', 'recursion limit')
